@@ -274,6 +274,17 @@ template<class T> static void round_fn(Rng& r, char const* ty) {
 		if (ce <= hi) { CALL("ceilMultiple/nextMultiple<%s> %lld %lld (end of range)", ty, (ll)S, (ll)M); use(glm::ceilMultiple(S, M)); use(glm::nextMultiple(S, M)); use(glm::ceilMultiple(glm::vec<2, T>(S, T(5)), glm::vec<2, T>(M, T(3)))); }
 		CALL("isMultiple<%s> %lld %lld (end of range)", ty, (ll)S, (ll)M); use(glm::isMultiple(S, M));
 	}
+	// multiples larger than a quarter of the type's range, any source: in the domain whenever the multiple asked for is representable
+	{
+		typedef __int128 W; W lo = (W)std::numeric_limits<T>::min(), hi = (W)std::numeric_limits<T>::max();
+		W mb = hi - (W)(r.next() % (uint64_t)(hi / 4 * 3 + 1)); if (mb < 1) mb = 1;              // (hi/4, hi]
+		W sb = std::numeric_limits<T>::is_signed ? (W)(T)r.next() : (W)(T)r.next(); if ((r.next() & 3) == 0) sb = mb - (W)r.range(0, 3); if (sb < lo) sb = lo; if (sb > hi) sb = hi;
+		W fl = sb - (((sb % mb) + mb) % mb), ce = fl == sb ? sb : fl + mb, df = sb - fl, rd = df < mb - df ? fl : fl + mb;
+		T S = (T)sb, M = (T)mb;
+		if (fl >= lo) { CALL("floorMultiple<%s> %lld %lld (large multiple)", ty, (ll)S, (ll)M); use(glm::floorMultiple(S, M)); }
+		if (ce <= hi) { CALL("ceilMultiple<%s> %lld %lld (large multiple)", ty, (ll)S, (ll)M); use(glm::ceilMultiple(S, M)); }
+		if (fl >= lo && rd <= hi) { CALL("roundMultiple<%s> %lld %lld (large multiple)", ty, (ll)S, (ll)M); use(glm::roundMultiple(S, M)); use(glm::roundMultiple(glm::vec<2, T>(S, T(5)), glm::vec<2, T>(M, T(3)))); }
+	}
 	T x = i_any<T>(r); int nth = r.range(0, w);
 	CALL("findNSB<%s> %lld %d", ty, (ll)x, nth);
 	use(glm::findNSB(x, nth)); use(glm::findNSB(glm::vec<2, T>(x, T(6)), glm::vec<2, int>(nth, 1)));
@@ -351,7 +362,7 @@ static Group GROUPS[] = {
 	{ "common", g_common, "abs: any but the signed minimum; sign/min/max/clamp: any; rounding: any finite; iround/uround: 0 <= x inside the target range; inversesqrt: positive" },
 	{ "integer", g_integer, "value arguments: any; 0 <= offset, 0 <= bits, offset + bits <= width" },
 	{ "bitfield", g_bitfield, "mask: 0..width; rotate: value any, 0 <= shift < width; fill: first + count <= width" },
-	{ "round", g_round, "0 < v <= 2^(w-3); |source| <= 2^(w-3), 0 < multiple <= 2^(w-3), and sources within 40 of either end of the type with multiples 1..33 whenever the floor (ceil) multiple is representable; findNSB: any value, 0 <= n <= width" },
+	{ "round", g_round, "0 < v <= 2^(w-3); |source| <= 2^(w-3), 0 < multiple <= 2^(w-3), and sources within 40 of either end of the type with multiples 1..33 whenever the floor (ceil) multiple is representable, and multiples above a quarter of the range with any source whenever the multiple asked for is representable; findNSB: any value, 0 <= n <= width" },
 	{ "relational", g_relational, "equal/notEqual (plain, epsilon, ULP; scalar and per-column/per-component tolerances), ordering relations, row/column access, transpose: every vector length, all nine matrix shapes, quaternions; any finite values" },
 	{ "gtx", g_gtx, "log2: x > 0; sqrt: x >= 0; pow: |b| <= 6, e <= 10; factorial: 0..12; powerOfTwo*: 0 < x <= 2^(w-3)" },
 };
